@@ -66,11 +66,12 @@ def bLine (ws : List String) : String := Id.run do
   let mut reserved := 0
   for (prog, res) in progs.zip implRes do
     let mut lastCount := 0
+    let mut mine : List (Nat × Nat) := []      -- pushes of this thread that have returned (program order)
     for (op, r) in prog.zip res do
       match op with
       | .push v =>
         match r.toNat? with
-        | some i => pushIdx := pushIdx ++ [(i, v)]; reserved := reserved + 1
+        | some i => pushIdx := pushIdx ++ [(i, v)]; reserved := reserved + 1; mine := mine ++ [(i, v)]
         | none => issues := issues ++ [s!"ORACLE C08 push returned {r}"]
       | .extend rep vals =>
         -- a batch whose iterator reports 0 but yields items panics before reserving
@@ -90,8 +91,17 @@ def bLine (ws : List String) : String := Id.run do
           if n > finCount then issues := issues ++ [s!"ORACLE C08 count {n} exceeds the final count {finCount}"]
           lastCount := n
         | none => issues := issues ++ [s!"ORACLE C08 count returned {r}"]
-      | .snapshot _ =>
+      | .snapshot start =>
         if (r.splitOn "!badcols").length > 1 then issues := issues ++ ["ORACLE C08 snapshot yielded an item with wrong matcher columns"]
+        -- a push of the same thread that has already returned must be found by the snapshot (when inside its range)
+        match r.splitOn ";" with
+        | [e, body] =>
+          let endIdx := e.toNat?.getD 0
+          let entries := if body = "-" then [] else body.splitOn "+"
+          for (i, v) in mine do
+            if start ≤ i && i < endIdx && !entries.contains s!"{i}:{v}" then
+              issues := issues ++ [s!"ORACLE C08 a snapshot of [{start}, {endIdx}) taken after push({v}) had returned index {i} does not contain that item"]
+        | _ => pure ()
   -- distinct, gap-free
   let idxs := pushIdx.map (·.1)
   if idxs.eraseDups.length ≠ idxs.length then issues := issues ++ [s!"ORACLE C08 two pushes received the same index: {idxs}"]
